@@ -439,6 +439,12 @@ def _tables(case):
     nf = case["nf"]
     if case["what"] == "coupling":
         scheme = case["scheme"]
+        # decoy calls with the other flavour numbers first: tables are pure functions of (scheme, nf); anything kept
+        # between calls (a memo keyed too coarsely) has to show inside this very case
+        for other in (3, 4, 5):
+            if other != nf:
+                couplings.compute_matching_coeffs_up(scheme, other)
+                couplings.compute_matching_coeffs_down(scheme, other)
         up = couplings.compute_matching_coeffs_up(scheme, nf)
         dn = couplings.compute_matching_coeffs_down(scheme, nf)
         st["calls"] += 2
@@ -449,6 +455,10 @@ def _tables(case):
             res, f"couplings.matching_coeffs/{scheme}/compose", up, dn, f"{scheme} nf={nf}", st, orders=(1, 2, 3, 4)
         )
     else:
+        for other in (3, 4, 5):
+            if other != nf:
+                msbar_masses.compute_matching_coeffs_up(other)
+                msbar_masses.compute_matching_coeffs_down(other)
         up = msbar_masses.compute_matching_coeffs_up(nf)
         dn = msbar_masses.compute_matching_coeffs_down(nf)
         st["calls"] += 2
